@@ -225,6 +225,30 @@ def run_project(job):
                 return {"why": "artifact %s differs from the stand-alone builds" % k, "order": list(perm), "run": rep,
                         "batch": got.get(k, b"<absent>").decode("utf-8", "replace")[:400],
                         "alone": expect_art.get(k, b"<absent>").decode("utf-8", "replace")[:400], "batch_stderr": err[-400:]}, runs
+    # the same batches with the files spelled differently on the command line (./, a redundant sub/../, ../ from a subdirectory,
+    # absolute): the spelling of a name must not change what the batch does
+    for kind, cwd, sp in (("dot", d, lambda nm: "./" + nm), ("redundant", d, lambda nm: "sub/../" + nm),
+                          ("dotdot", os.path.join(d, "sub"), lambda nm: "../" + nm), ("absolute", d, lambda nm: os.path.join(d, nm))):
+        for perm in list(perms)[:(2 if tier == "quick" else 6)]:
+            clean(d)
+            expect_art = expected(perm)
+            args = [sp(nm) for nm in perm]
+            rc, out, err = ucg(cwd, ["build"] + args)
+            runs += 1
+            if rc not in (0, 1):
+                return {"why": "`ucg build %s` ended with status %d" % (" ".join(args), rc), "stderr": err[-600:], "order": args, "spelling": kind}, runs
+            ff = failed_files(cwd, err)
+            for nm, a in zip(perm, args):
+                okb = os.path.normpath(a) not in ff
+                if okb != alone[nm]["ok"]:
+                    return {"why": "%s %s alone but %s in the batch when spelled %s" % (nm, "builds" if alone[nm]["ok"] else "fails",
+                                                                                       "builds" if okb else "fails", a),
+                            "order": args, "spelling": kind, "cwd": os.path.relpath(cwd, d), "batch_stderr": err[-800:]}, runs
+            got = snapshot(d)
+            if got != expect_art:
+                diff = sorted(set(got) ^ set(expect_art)) + sorted(k for k in got if k in expect_art and got[k] != expect_art[k])
+                return {"why": "artifact %s differs from the stand-alone builds when the files are spelled %s" % (diff[0], kind),
+                        "order": args, "spelling": kind, "batch_stderr": err[-400:]}, runs
     # recursive directory build: every file of the project, in directory order
     clean(d)
     rc, out, err = ucg(d, ["build", "-r", "."])
